@@ -311,7 +311,7 @@ func fieldAfterMarker(evs []*Event, fs []*FieldLayout, marker int) *FieldLayout 
 			seen = true
 			continue
 		}
-		if seen && isWireEvent(e) {
+		if seen && countsAsWire(e) {
 			for _, f := range fs {
 				if len(f.Ev) > 0 && f.Ev[0] == e {
 					return f
